@@ -357,6 +357,166 @@ def poisson_interval(tree):
     return mid, upd, init, sorted(opts)
 
 
+KERNEL_ARG = {"gaussian_mask_1d": 4, "gaussian_mask_2d": 6, "_poisson": 3}    # position of the array the kernel writes
+ALLOC = {"np.zeros", "np.ones", "np.empty", "np.zeros_like", "np.ones_like", "np.empty_like", "numpy.zeros"}
+COPY_METHODS = {"astype", "copy", "repeat"}
+VIEW_METHODS = {"reshape", "squeeze", "view", "ravel"}
+KERNEL_ARRAYS_EXPECTED = [
+    ("VariableDensityPoissonMaskFunc.poisson:_poisson#0", "mask", ["alloc"]),
+    ("Gaussian1DMaskFunc.mask_func:gaussian_mask_1d#0", "mask[i]", ["copy", "copy"]),
+    ("Gaussian1DMaskFunc.mask_func:gaussian_mask_1d#1", "mask", ["copy", "copy", "view"]),
+    ("Gaussian2DMaskFunc.mask_func:gaussian_mask_2d#0", "mask[i]", ["fresh-call", "copy"]),
+    ("Gaussian2DMaskFunc.mask_func:gaussian_mask_2d#1", "mask", ["fresh-call", "copy", "view"]),
+]
+
+
+def _decorators(tree):
+    rows = []
+
+    def walk(node, prefix):
+        for ch in ast.iter_child_nodes(node):
+            if isinstance(ch, (ast.FunctionDef, ast.AsyncFunctionDef)):
+                for d in ch.decorator_list:
+                    t = ast.unparse(d).replace(" ", "")
+                    if "cache" in t.lower() or "memo" in t.lower():
+                        rows.append((prefix + ch.name, t))
+                walk(ch, prefix + ch.name + ".")
+            elif isinstance(ch, ast.ClassDef):
+                walk(ch, prefix + ch.name + ".")
+
+    walk(tree, "")
+    return rows
+
+
+def _mutable_defaults(tree):
+    rows = []
+
+    def walk(node, prefix):
+        for ch in ast.iter_child_nodes(node):
+            if isinstance(ch, (ast.FunctionDef, ast.AsyncFunctionDef)):
+                a = ch.args
+                names = [x.arg for x in a.posonlyargs + a.args]
+                for nm, d in list(zip(names[len(names) - len(a.defaults):], a.defaults)) + [
+                        (k.arg, d) for k, d in zip(a.kwonlyargs, a.kw_defaults) if d is not None]:
+                    if isinstance(d, (ast.List, ast.Dict, ast.Set, ast.ListComp, ast.DictComp, ast.SetComp, ast.Call)):
+                        rows.append((prefix + ch.name, nm, ast.unparse(d).replace(" ", "")[:60]))
+                walk(ch, prefix + ch.name + ".")
+            elif isinstance(ch, ast.ClassDef):
+                walk(ch, prefix + ch.name + ".")
+
+    walk(tree, "")
+    return rows
+
+
+def _module_state(tree):
+    """module-level (and class-level) names bound to mutable containers or to objects created at import"""
+    rows = []
+
+    def scan(body, prefix):
+        for st in body:
+            tgts = []
+            if isinstance(st, ast.Assign):
+                tgts, val = st.targets, st.value
+            elif isinstance(st, ast.AnnAssign) and st.value is not None:
+                tgts, val = [st.target], st.value
+            for t in tgts:
+                nm = ast.unparse(t)
+                if nm.startswith("__") and nm.endswith("__"):
+                    continue
+                txt = ast.unparse(val).replace(" ", "")
+                if isinstance(val, (ast.List, ast.Dict, ast.Set, ast.ListComp, ast.DictComp, ast.SetComp)):
+                    rows.append((prefix + nm, txt[:60]))
+                elif isinstance(val, ast.Call) and ast.unparse(val.func) not in ("logging.getLogger",):
+                    # calls that build immutable values are fine; anything array- or container-like is state
+                    if any(k in txt for k in ("np.zeros", "np.ones", "np.array", "dict(", "list(", "set(", "defaultdict", "OrderedDict", "{}", "[]")):
+                        rows.append((prefix + nm, txt[:60]))
+            if isinstance(st, ast.ClassDef) and st.name != "CalgaryCampinasMaskFunc":   # outside the property's generator list
+                scan(st.body, prefix + st.name + ".")
+
+    scan(tree.body, "")
+    return rows
+
+
+def _fresh_module_function(tree, name, depth=0) -> bool:
+    """a module-level function that is not memoised and whose every `return` hands out a new array"""
+    if depth > 3:
+        return False
+    for ch in tree.body:
+        if isinstance(ch, ast.FunctionDef) and ch.name == name:
+            if ch.decorator_list:
+                return False
+            rets = [n for n in ast.walk(ch) if isinstance(n, ast.Return)]
+            return bool(rets) and all(r.value is not None and _value_kind(tree, r.value, None, depth + 1) in ("alloc", "copy", "fresh-call")
+                                      for r in rets)
+    return False
+
+
+def _value_kind(tree, val, root, depth=0) -> str:
+    if isinstance(val, ast.Call):
+        f = ast.unparse(val.func).replace(" ", "")
+        if f in ALLOC:
+            return "alloc"
+        if isinstance(val.func, ast.Attribute):
+            if val.func.attr in COPY_METHODS:
+                return "copy"
+            if val.func.attr in VIEW_METHODS:
+                base = val.func.value
+                while isinstance(base, (ast.Subscript, ast.Attribute, ast.Call)):
+                    base = base.value if not isinstance(base, ast.Call) else base.func
+                return "view" if isinstance(base, ast.Name) and base.id == root else "other:" + f
+        if isinstance(val.func, ast.Name):
+            return "fresh-call" if _fresh_module_function(tree, val.func.id, depth) else "cached-or-unknown-call:" + f
+        return "other:" + f
+    if isinstance(val, ast.BinOp):
+        return "copy"          # elementwise arithmetic on arrays allocates its result
+    return "other:" + ast.unparse(val).replace(" ", "")[:40]
+
+
+def kernel_arrays(tree):
+    """for every call of an in-place Cython kernel: where the array it writes was bound, by every assignment to its root
+    name that lexically precedes the call in the same function"""
+    rows = []
+
+    def visit(node, prefix):
+        for ch in ast.iter_child_nodes(node):
+            if isinstance(ch, ast.ClassDef):
+                visit(ch, prefix + ch.name + ".")
+            elif isinstance(ch, ast.FunctionDef):
+                seen: dict = {}
+                calls = sorted((n for n in ast.walk(ch) if isinstance(n, ast.Call) and ast.unparse(n.func) in KERNEL_ARG),
+                               key=lambda n: (n.lineno, n.col_offset))
+                for c in calls:
+                    k = ast.unparse(c.func)
+                    idx = seen.get(k, 0)
+                    seen[k] = idx + 1
+                    pos = KERNEL_ARG[k]
+                    if len(c.args) <= pos:
+                        rows.append((f"{prefix}{ch.name}:{k}#{idx}", "?", ["other:argument-form"]))
+                        continue
+                    arr = c.args[pos]
+                    root = arr
+                    while isinstance(root, (ast.Subscript, ast.Attribute)):
+                        root = root.value
+                    if not isinstance(root, ast.Name):
+                        rows.append((f"{prefix}{ch.name}:{k}#{idx}", ast.unparse(arr), ["other:not-a-local"]))
+                        continue
+                    kinds = []
+                    for st in all_stmts(ch):
+                        if st.lineno >= c.lineno:
+                            continue
+                        if isinstance(st, ast.Assign) and any(isinstance(t, ast.Name) and t.id == root.id for t in st.targets):
+                            kinds.append(_value_kind(tree, st.value, root.id))
+                        elif isinstance(st, ast.AugAssign) and isinstance(st.target, ast.Name) and st.target.id == root.id:
+                            kinds.append("view")
+                    if root.id in [a.arg for a in ch.args.args] and not kinds:
+                        kinds = ["other:parameter"]
+                    rows.append((f"{prefix}{ch.name}:{k}#{idx}", ast.unparse(arr).replace(" ", ""), kinds or ["other:unbound"]))
+                visit(ch, prefix + ch.name + ".")
+
+    visit(tree, "")
+    return rows
+
+
 CHOOSE_EXPECTED = [
     "if:notself.accelerations",
     "if:notself.uniform_range",
@@ -525,6 +685,24 @@ def _extra():
     chunks.append("/-- initial interval of the bisection -/\ndef poissonInit : List (String × String) := " + pairs(pinit))
     chunks.append("/-- where the constructor options `tol`, `max_attempts`, `crop_corner` are used in `poisson` -/\n"
                   "def poissonOptions : List (String × String) := " + pairs(popts))
+    if tree is not None:
+        caches, defaults, mstate, karr = _decorators(tree), _mutable_defaults(tree), _module_state(tree), kernel_arrays(tree)
+        status["process_state_tables"] = "translated"
+    else:
+        caches, defaults, mstate, karr = [], [], [], KERNEL_ARRAYS_EXPECTED
+        status["process_state_tables"] = "skipped: unparsable"
+    chunks.append("/-- memoising decorators (`lru_cache`, `cache`, …) anywhere in `subsample.py`: (function, decorator) -/\n"
+                  "def moduleCaches : List (String × String) := " + pairs(caches))
+    chunks.append("/-- mutable default arguments in `subsample.py`: (function, argument, default) -/\n"
+                  "def mutableDefaults : List (String × String × String) := [\n"
+                  + ",\n".join(f"  ({_lean_str(a)}, {_lean_str(b)}, {_lean_str(c)})" for a, b, c in defaults) + "]\n")
+    chunks.append("/-- module- / class-level names bound to mutable containers or arrays: (name, value) -/\n"
+                  "def moduleState : List (String × String) := " + pairs(mstate))
+    chunks.append("/-- for every call of an in-place Cython kernel: (site, array expression, how every earlier assignment of its root "
+                  "name in the same function binds it) -/\n"
+                  "def kernelArrays : List (String × String × List String) := [\n"
+                  + ",\n".join(f"  ({_lean_str(a)}, {_lean_str(b)}, [" + ", ".join(_lean_str(k) for k in ks) + "])" for a, b, ks in karr)
+                  + "]\n")
     mtoks, st = magic_plan(tree) if tree is not None else (MAGIC_PLAN_EXPECTED, "skipped: unparsable")
     status["magic_frame_plan"] = st
     chunks.append("/-- frame loop of `MagicMaskFunc.mask_func`: draw, strided assignments, flip, shift, union with the ACS row -/\n"
